@@ -98,6 +98,9 @@ def s1(ck, an):
                 if fix:
                     n += 1
                     continue
+                att = an.attributed(f)
+                if f.qual in an.prog.expanded_into and att and all(g.qual != f.qual for g in att):
+                    continue        # a new helper expanded into its reviewed callers: the store is reported there (same statement, the caller as subject)
                 ck.fail("GLOBAL", "S1.no-process-wide-store", f.short, e.loc,
                         f"{f.short} stores into {e.owner}.{e.attr}: process-wide state shared by every environment in the process", construct=stmt_text(e.node))
     ck.check(n >= 1, "GLOBAL", "S1.control", "fixture", "selftest/fixtures", "positive control: the fixture's class-object store is detected", "positive control failed: class-object stores are no longer detected",
